@@ -266,7 +266,7 @@ def tree_bases(draw):
                 spec, params = zoned(draw(wall))
                 props.append([nm, spec] + ([params] if params else []))
         if draw(st.booleans()):
-            props.append(["SUMMARY", {"k": "text", "v": draw(st.sampled_from(["Ünï cödé long " * 6, "a;b,c", "plain", "x" * 120]))}, {"LANGUAGE": "de", "X-Par": "a:b"}])
+            props.append(["SUMMARY", {"k": "text", "v": draw(st.sampled_from(["Ünï cödé long " * 6, "a;b,c", "plain", "x" * 120, "first\u2028second", "para\u2029graph", "nel\x85here", "vt\x0bff\x0cfs\x1c", "nbsp\u00a0end "]))}, {"LANGUAGE": "de", "X-Par": "a:b"}])
         comps.append({"c": kind, "p": props, "s": []})
     tzs = [VTZ[zone_id]]
     subs = tzs + comps if draw(st.booleans()) else comps + tzs
